@@ -25,17 +25,17 @@ func modelOutcome(ans string) string {
 }
 
 type tcase struct {
-	p      *prog
-	src    string
-	real   outcome
-	stream string
-	noGc   bool // gc is run on it only when model and VM disagree (exhaustive stream: a sample goes to gc)
+	p       *prog
+	src     string
+	real    outcome
+	stream  string
+	noGc    bool   // gc is run on it only when model and VM disagree (exhaustive stream: a sample goes to gc)
 	finding string // replay of this recorded finding: its breaks are known
 }
 
 func run(c *hx.Ctx) error {
 	res := c.Res
-	res.Rule = "three streams. uniform: random function tables (2–7 functions, acyclic references, ≤ 6 instructions each) over call/defer/defer recover()/return/panic/recover/re-panic/print (+ Stop/Fatal in a third); grammar: nested functions with 0–3 deferred calls each whose deferred functions recover, re-panic, panic again, defer and call further functions (depth ≤ 3); exhaustive: every program main(≤3 instr)/f1(≤2)/f2(≤2) over defer/call/panic/recover(/re-panic in f2), all run on the VM and the Lean machines, a seed-dependent sample of them and every disagreement also by gc. Functions written as top-level function, literal or closure variable, panics as builtin, native function or native method; non-trivial: a panic is raised at run time; distinct by abstract program"
+	res.Rule = "reach: {the way a native function is reached: direct call, function value in a variable / passed as argument / returned / in a struct field / in a slice, method, method value, method expression, the same three through a native interface type} x {what it does: panic(int/string/error/custom error), nothing, print, Stop, Fatal, calling back a Scriggo function that panics, raises a run-time error, recovers, recovers its own panic, returns, Stops, Fatals} x {called, deferred, deferred while unwinding; no recover, recover in a deferred closure, defer recover(), re-panic, second panic, one and two calls deep}, all on the VM and the Lean machines, a sample and every disagreement by gc; template: the same reaches x {statement, show, macro body, show in a macro body, recovering function literal} against the documentation; and three streams. uniform: random function tables (2–7 functions, acyclic references, ≤ 6 instructions each) over call/defer/defer recover()/return/panic/recover/re-panic/print (+ Stop/Fatal in a third); grammar: nested functions with 0–3 deferred calls each whose deferred functions recover, re-panic, panic again, defer and call further functions (depth ≤ 3); exhaustive: every program main(≤3 instr)/f1(≤2)/f2(≤2) over defer/call/panic/recover(/re-panic in f2), all run on the VM and the Lean machines, a seed-dependent sample of them and every disagreement also by gc. Functions written as top-level function, literal or closure variable, panics as builtin, native function or native method; non-trivial: a panic is raised at run time; distinct by abstract program"
 	if c.Replay != "" {
 		return replay(c)
 	}
@@ -58,7 +58,14 @@ func run(c *hx.Ctx) error {
 	for i, p := range exhaustivePrograms() {
 		cases = append(cases, &tcase{p: p, stream: "exhaustive", noGc: i%every != off})
 	}
-	return checkCases(c, cases, true)
+	for i, p := range reachMatrix() {
+		cases = append(cases, &tcase{p: p, stream: "reach", noGc: i%every != off})
+	}
+	if err := checkCases(c, cases, true); err != nil {
+		return err
+	}
+	checkTemplates(c, tmplCases())
+	return nil
 }
 
 func checkCases(c *hx.Ctx, cases []*tcase, shrink bool) error {
@@ -123,6 +130,9 @@ func checkCases(c *hx.Ctx, cases []*tcase, shrink bool) error {
 		res.Hist("outcome-" + strings.SplitN(t.real.Res, ":", 2)[0])
 		res.Hist("stream-" + t.stream)
 		res.Hist(fmt.Sprintf("panic-sites-%d", min(t.p.count(opPanic), 6)))
+		for _, h := range t.p.nativeHist() {
+			res.Hist(h)
+		}
 		if i%97 == 0 && nontrivial {
 			res.Sample(map[string]string{"program": key, "scriggo": real})
 		}
@@ -234,9 +244,6 @@ func docOracle(t *tcase) string {
 	case r.Res == "builderror" || r.Res == "error":
 		return "run-result-is-documented"
 	case strings.HasPrefix(r.Res, "stop:") || strings.HasPrefix(r.Res, "fatal:"):
-		if !strings.HasSuffix(r.Events, "S") {
-			return "nothing-runs-after-Stop-or-Fatal"
-		}
 		// the value must be one the program passes to Stop/Fatal
 		want := false
 		for _, f := range t.p.Funcs {
@@ -246,8 +253,14 @@ func docOracle(t *tcase) string {
 				}
 			}
 		}
+		if !want && strings.HasPrefix(r.Res, "fatal:") {
+			return "no-host-panic-except-Fatal" // Run panicked with a value the program gives to no Fatal call
+		}
 		if !want {
 			return "value-given-to-Stop-or-Fatal"
+		}
+		if !strings.HasSuffix(r.Events, "S") {
+			return "nothing-runs-after-Stop-or-Fatal"
 		}
 	}
 	if r.Extra != "" {
@@ -261,7 +274,7 @@ func candidates(p *prog) []*prog {
 	var out []*prog
 	for i, f := range p.Funcs {
 		for j := range f {
-			q := &prog{Style: p.Style, Native: p.Native, forceNative: p.forceNative}
+			q := (&prog{}).withStyleOf(p)
 			for k, g := range p.Funcs {
 				if k == i {
 					h := append(append([]instr{}, g[:j]...), g[j+1:]...)
@@ -384,6 +397,10 @@ func replay(c *hx.Ctx) error {
 		return err
 	}
 	line := jsonField(string(data), "case")
+	if t, ok := parseTmplCase(line); ok {
+		checkTemplates(c, []tmplCase{t})
+		return nil
+	}
 	i := strings.Index(line, "P ")
 	if i < 0 {
 		return fmt.Errorf("replay file has no program")
